@@ -168,6 +168,8 @@ PivotFits(F, v) == /\ ("year_mod_100" \in F /\ "year" \notin F /\ "year_div_100"
 Expressible(w, r, v, pty) ==
    LET F == Fields(r)  off2 == ProjOff(w, v.off) IN
    /\ (v.hd => YearFits(w, v))
+   /\ (v.ht /\ v.frac >= NSu => v.secs % 60 = 59)                         \* a leap second is second 60 of a minute: the flag on any other second
+                                                                          \* prints as the FOLLOWING second (s + 1), which no format can tell from it
    /\ (Redundant(F, pty) => off2 = v.off)                                 \* the printed offset must be the exact one, or timestamp and civil fields disagree
    /\ IF "timestamp" \in F /\ ~Redundant(F, pty)
       THEN /\ v.frac < NSu                                               \* %s cannot carry a leap second
